@@ -36,6 +36,7 @@ type refSDRRepo struct {
 	changed    bool
 	// how the modification shows: which timestamp advances, whether the reservation is cancelled
 	bumpErase         bool
+	bumpNone          bool // neither timestamp advances (they have one-second resolution)
 	cancelReservation bool
 }
 
@@ -57,7 +58,9 @@ func (b *refSDRRepo) SendCommand(ctx context.Context, c ipmi.Command) (ipmi.Comp
 		// outstanding reservations are cancelled
 		b.changed = true
 		b.records = b.newRecords
-		if b.bumpErase {
+		if b.bumpNone {
+			// only the reservation tells
+		} else if b.bumpErase {
 			b.lastErase++
 		} else {
 			b.lastAdd++
@@ -66,7 +69,9 @@ func (b *refSDRRepo) SendCommand(ctx context.Context, c ipmi.Command) (ipmi.Comp
 			b.reservation += 7
 		}
 	}
-	if uint16(cmd.Req.ReservationID) != b.reservation {
+	// 33.12: the reservation is required for partial reads with a non-zero offset; 0000h
+	// may be used otherwise. A reservation ID that is given is checked.
+	if (cmd.Req.Offset != 0 || cmd.Req.ReservationID != 0) && uint16(cmd.Req.ReservationID) != b.reservation {
 		return ipmi.CompletionCodeReservationCanceledOrInvalid, nil
 	}
 	idx := -1
@@ -106,7 +111,8 @@ func (b *refSDRRepo) SendCommand(ctx context.Context, c ipmi.Command) (ipmi.Comp
 // vRecords draws n records with arbitrary distinct IDs (never 0xFFFF), arbitrary type
 // (full sensor record or anything else) and, for full sensor records, an arbitrary body of
 // 43 bytes plus an ID string chosen from: empty 8-bit, 2-character 8-bit, 3-character
-// packed 6-bit, 3-digit BCD plus.
+// packed 6-bit, 3-digit BCD plus, 16-character 8-bit followed by 5 further bytes (record
+// length 64, the most the library accepts).
 func vRecords(n int, firstZero bool) []refRecord {
 	recs := make([]refRecord, n)
 	for i := range recs {
@@ -125,7 +131,11 @@ func vRecords(n int, firstZero bool) []refRecord {
 			recs[i].typ = 0x01
 			body := vBytes(42)
 			var tail []byte
-			switch vChoice(4) {
+			switch vChoice(vParam("idshapes", 5)) {
+			case 4:
+				// the longest record the library accepts: a 16-character 8-bit ID string
+				// followed by OEM bytes up to a record length of 64
+				tail = append(append([]byte{0xD0}, vBytes(16)...), vBytes(5)...)
 			case 0:
 				tail = []byte{0xC0}
 			case 1:
@@ -191,7 +201,18 @@ func VerifC14_Modified() {
 	n2 := vLen(1, vParam("maxrecords", 2))
 	recs2 := vRecords(n2, false)
 	b := &refSDRRepo{records: recs1, reservation: vU16(), lastAdd: vU32(), lastErase: vU32(), newRecords: recs2}
-	b.bumpErase, b.cancelReservation = vBool(), vBool()
+	switch vChoice(4) {
+	case 0:
+		b.cancelReservation = true
+	case 1:
+		b.bumpErase, b.cancelReservation = true, true
+	case 2:
+		// the modification falls into the same second as the previous one: neither
+		// timestamp moves, only the reservation is cancelled
+		b.bumpNone, b.cancelReservation = true, true
+	case 3:
+		b.bumpErase = vBool() // a BMC that keeps the reservation valid
+	}
 	vAssume(b.lastAdd < 0xfffffff0)
 	vAssume(b.lastErase < 0xfffffff0)
 	vAssume(b.reservation < 0xff00)
